@@ -59,6 +59,7 @@ fn permute_tlv_encoders(h: &History) -> History {
     let swap_val = |v: &Val| -> Val {
         match v {
             Val::TlvStruct(k, b) => Val::TlvTuple(*k, b.clone()),
+            Val::TlvOwned(k, b) => Val::TlvStruct(*k, b.clone()),
             Val::TlvTuple(k, b) => Val::TlvStruct(*k, b.clone()),
             Val::TlvTupleType(t, b) => Val::TlvStruct(TYPE_CODES[*t].1, b.clone()),
             v => v.clone(),
@@ -257,7 +258,7 @@ fn judge(h: &History, variant: u64, rec: &mut Recorder, which: Which) {
                 if hv == h {
                     continue;
                 }
-                let o2 = exec(hv, variant + 1, usize::MAX, &mut |_, _| {});
+                let o2 = crate::hist::exec_plain(hv, variant + 1);
                 rec.events(hv.ops.len() as u64 + 2);
                 match o2 {
                     Exec::Built(b2) => {
@@ -298,9 +299,10 @@ fn judge(h: &History, variant: u64, rec: &mut Recorder, which: Which) {
 fn hist_streams(tier: Tier) -> Vec<StreamSpec> {
     vec![
         exhaustive("hist-short", short_history_count(tier.n(2, 4, 5) as u32)),
-        stream("hist-rand", tier.n(100, 300_000, 20_000_000)),
-        stream("hist-boundary", tier.n(5, 20_000, 1_000_000)),
+        stream("hist-rand", tier.n(100, 1_000_000, 20_000_000)),
+        stream("hist-boundary", tier.n(5, 40_000, 1_000_000)),
         stream("hist-chain", tier.n(5, 10_000, 500_000)),
+        stream("hist-overfull", tier.n(2, 3_000, 100_000)),
     ]
 }
 
@@ -310,6 +312,7 @@ fn hist_case(stream_name: &str, idx: u64, seed: u64) -> History {
         "hist-short" => short_history(idx),
         "hist-boundary" => boundary_history(&mut rng),
         "hist-chain" => chain_history(&mut rng),
+        "hist-overfull" => overfull_history(&mut rng),
         _ => rand_history(&mut rng),
     }
 }
@@ -330,7 +333,7 @@ impl Monitor for C09 {
         "C09"
     }
     fn rule(&self) -> &'static str {
-        "cases = builder call histories: all sequences of up to 4 calls (5 in thorough) over a 9-call alphabet {set_length(Some a), set_length(Some b), set_length(None), write u8, write 65535-byte slice, write_tlv, reserve_capacity, write addresses, write_payloads[2]} from both constructors, random histories of 0-15 calls over every payload kind with forced set_length placements (before the first write, between writes, last before build, repeated, Some then None), histories whose payload total lands on 65535-3..65535+3, and long chains; each call is an event recorded with its Ok/Err, the build output's length field is judged against the explicit length in force / the actual size, oversized single values must be refused; with the hook the builder's explicit-length state is compared with the model after every call; non-trivial = the history contains a write or set_length; distinct = distinct histories"
+        "cases = builder call histories: all sequences of up to 4 calls (5 in thorough) over an 11-call alphabet {set_length(Some a), set_length(Some b), set_length(None), write u8, write 65535-byte slice, write_tlv, reserve_capacity, write addresses, write_payloads[2], write empty slice, write_payloads[]} from both constructors, random histories of 0-15 calls over every payload kind with forced set_length placements (before the first write, between writes, last before build, repeated, Some then None), histories whose payload total lands on 65535-3..65535+3, and long chains; each call is an event recorded with its Ok/Err, the build output's length field is judged against the explicit length in force / the actual size, oversized single values must be refused; with the hook the builder's explicit-length state is compared with the model after every call; non-trivial = the history contains a write or set_length; distinct = distinct histories"
     }
     fn streams(&self, tier: Tier) -> Vec<StreamSpec> {
         hist_streams(tier)
